@@ -1,7 +1,11 @@
 (* Model of textx/registration.py: the language / generator registries and the metamodel
    cache as a state machine, plus the abstract specification (eagerly loaded
-   case-insensitive maps) it refines. *)
-From TxV Require Import Core.Base.
+   case-insensitive maps) it refines.
+   The implementation machine ([step]) is instantiated with the facts that
+   tools/translate/registry_tr.py reads from textx/registration.py on every run
+   (Gen/SrcRegistry.v): which key expressions are lower-cased, what clearing resets, the cache
+   key, the skipping of pattern-less languages.  The specification machine ([sstep]) is fixed. *)
+From TxV Require Import Core.Base Gen.SrcRegistry.
 
 Definition lower_char (c : N) : N := if (N.leb 65 c && N.leb c 90)%bool then (c + 32)%N else c.
 Definition lower (s : list N) : list N := map lower_char s.
@@ -20,7 +24,8 @@ Inductive op :=
 
 Inductive result :=
 | RUnit | RErr | RLang (d : ldesc) | RLangs (l : list ldesc) | RGen (d : gdesc)
-| RGens (l : list gdesc) | RMM (m : mm) | RMMs (l : list mm).
+| RGens (l : list gdesc) | RMM (m : mm) | RMMs (l : list mm)
+| RCrash.   (* an exception that is not a TextXRegistrationError *)
 
 Fixpoint lookup {A} (k : list N) (l : list (list N * A)) : option A :=
   match l with
@@ -35,6 +40,9 @@ Fixpoint update {A} (k : list N) (v : A) (l : list (list N * A)) : list (list N 
   end.
 
 Definition any_key : list N := [97; 110; 121]%N.
+
+(* a key expression of the source: with or without `.lower()` (Gen fact) *)
+Definition lw (lowered : bool) (s : list N) : list N := if lowered then lower s else s.
 
 Section Registry.
   Variable fnm : list N -> list N -> bool.          (* fnmatch.fnmatch: oracle *)
@@ -114,6 +122,70 @@ Section Registry.
         end
     end.
 
+  (* ---------------- the functions of registration.py, with the key expressions, clearing and
+     pattern test as found in the source (Gen/SrcRegistry.v); Python dict assignment = [update] *)
+  Definition ireg_lang (d : ldesc) (t : ltable) : option ltable :=
+    match lookup (lw reg_lang_check_lowered (lname d)) t with
+    | Some _ => None
+    | None => Some (update (lw reg_lang_store_lowered (lname d)) d t)
+    end.
+
+  Definition ireg_gen (d : gdesc) (t : gtable) : option gtable :=
+    let lk := lw reg_gen_lang_lowered (glang d) in
+    match lookup lk t with
+    | None => Some (t ++ [(lk, [(lw reg_gen_store_lowered (gtarget d), d)])])       (* setdefault(lk, {}) then store *)
+    | Some lg => match lookup (lw reg_gen_check_lowered (gtarget d)) lg with
+                 | Some _ => None
+                 | None => Some (update lk (update (lw reg_gen_store_lowered (gtarget d)) d lg) t)
+                 end
+    end.
+
+  Definition ilang_description (n : list N) (t : ltable) : option ldesc := lookup (lw lang_lookup_lowered n) t.
+
+  Definition igen_description (l tg : list N) (anyp : bool) (t : gtable) : option gdesc :=
+    let lk := lw gen_lookup_lang_lowered l in
+    let tk := lw gen_lookup_target_lowered tg in
+    let direct := match lookup lk t with Some lg => lookup tk lg | None => None end in
+    match direct with
+    | Some d => Some d
+    | None => if anyp then match lookup any_key t with Some lg => lookup tk lg | None => None end
+              else None
+    end.
+
+  (* None = fnmatch is reached with a None pattern (TypeError) *)
+  Definition ilangs_for_file (f : list N) (t : ltable) : option (list ldesc) :=
+    if patternless_skipped then Some (filter (matches f) (map snd t))
+    else if existsb (fun d => match lpattern d with None => true | Some _ => false end) (map snd t) then None
+    else Some (filter (matches f) (map snd t)).
+
+  Definition imm_for_lang (n : list N) (kw : bool) (t : ltable) (cache : list (list N * mm)) (serial : nat)
+    : option mm * list (list N * mm) * nat :=
+    let k := lw mm_key_lowered n in
+    match lookup k cache, kw with
+    | Some m, false => (Some m, cache, serial)
+    | _, _ =>
+        match ilang_description k t with
+        | None => (None, cache, serial)
+        | Some d =>
+            match lsrc d with
+            | Instance i => (Some (MMInst i), update k (MMInst i) cache, serial)
+            | Factory f => (Some (MMFresh f serial kw), update k (MMFresh f serial kw) cache, S serial)
+            | BadFactory => (None, cache, S serial)
+            end
+        end
+    end.
+
+  Fixpoint imms_for (ds : list ldesc) (t : ltable) (cache : list (list N * mm)) (serial : nat) (acc : list mm)
+    : option (list mm) * list (list N * mm) * nat :=
+    match ds with
+    | [] => (Some acc, cache, serial)
+    | d :: ds' =>
+        match imm_for_lang (lname d) false t cache serial with
+        | (Some m, c', s') => imms_for ds' t c' s' (acc ++ [m])
+        | (None, c', s') => (None, c', s')
+        end
+    end.
+
   (* ---------------- the implementation's state machine (lazy tables) *)
   Record state := { langs : option ltable; gens : option gtable; cache : list (list N * mm); serial : nat }.
   Definition init : state := {| langs := None; gens := None; cache := []; serial := 0 |}.
@@ -127,48 +199,57 @@ Section Registry.
   Definition step (s : state) (o : op) : state * result :=
     match o with
     | RegLang d => let t := force_l s in
-                   match reg_lang d t with
+                   match ireg_lang d t with
                    | Some t' => (with_l s t', RUnit)
                    | None => (with_l s t, RErr)
                    end
-    | ClearLangs => ({| langs := None; gens := gens s; cache := []; serial := serial s |}, RUnit)
+    | ClearLangs => ({| langs := if clear_langs_forgets_table then None else Some [];
+                        gens := gens s;
+                        cache := if clear_langs_drops_cache then [] else cache s;
+                        serial := serial s |}, RUnit)
     | RegGen d => let t := force_g s in
-                  match reg_gen d t with
+                  match ireg_gen d t with
                   | Some t' => (with_g s t', RUnit)
                   | None => (with_g s t, RErr)
                   end
-    | ClearGens => ({| langs := langs s; gens := None; cache := cache s; serial := serial s |}, RUnit)
+    | ClearGens => ({| langs := langs s; gens := if clear_gens_forgets_table then None else Some [];
+                       cache := cache s; serial := serial s |}, RUnit)
     | LangDescription n => let t := force_l s in
-                           (with_l s t, match lookup (lower n) t with Some d => RLang d | None => RErr end)
+                           (with_l s t, match ilang_description n t with Some d => RLang d | None => RErr end)
     | GenDescription l tg anyp => let t := force_g s in
-                           (with_g s t, match gen_description l tg anyp t with Some d => RGen d | None => RErr end)
-    | LangsForFile f => let t := force_l s in (with_l s t, RLangs (langs_for_file f t))
+                           (with_g s t, match igen_description l tg anyp t with Some d => RGen d | None => RErr end)
+    | LangsForFile f => let t := force_l s in
+                        (with_l s t, match ilangs_for_file f t with Some l => RLangs l | None => RCrash end)
     | LangForFile f => let t := force_l s in
-                       (with_l s t, match langs_for_file f t with [d] => RLang d | _ => RErr end)
+                       (with_l s t, match ilangs_for_file f t with Some [d] => RLang d | Some _ => RErr | None => RCrash end)
     | MMForLang n kw =>
         (* the language table is only consulted (and loaded) on a cache miss or with kwargs *)
-        match lookup (lower n) (cache s), kw with
+        match lookup (lw mm_key_lowered n) (cache s), kw with
         | Some m, false => (s, RMM m)
         | _, _ => let t := force_l s in
-                  match mm_for_lang n kw t (cache s) (serial s) with
+                  match imm_for_lang n kw t (cache s) (serial s) with
                   | (Some m, c', n') => (with_c (with_l s t) c' n', RMM m)
                   | (None, c', n') => (with_c (with_l s t) c' n', RErr)
                   end
         end
     | MMForFile f kw =>
         let t := force_l s in
-        match langs_for_file f t with
-        | [d] => match mm_for_lang (lname d) kw t (cache s) (serial s) with
-                 | (Some m, c', n') => (with_c (with_l s t) c' n', RMM m)
-                 | (None, c', n') => (with_c (with_l s t) c' n', RErr)
-                 end
-        | _ => (with_l s t, RErr)
+        match ilangs_for_file f t with
+        | Some [d] => match imm_for_lang (lname d) kw t (cache s) (serial s) with
+                      | (Some m, c', n') => (with_c (with_l s t) c' n', RMM m)
+                      | (None, c', n') => (with_c (with_l s t) c' n', RErr)
+                      end
+        | Some _ => (with_l s t, RErr)
+        | None => (with_l s t, RCrash)
         end
     | MMsForFile f =>
         let t := force_l s in
-        match mms_for (langs_for_file f t) t (cache s) (serial s) [] with
-        | (Some ms, c', n') => (with_c (with_l s t) c' n', RMMs ms)
-        | (None, c', n') => (with_c (with_l s t) c' n', RErr)
+        match ilangs_for_file f t with
+        | Some ds => match imms_for ds t (cache s) (serial s) [] with
+                     | (Some ms, c', n') => (with_c (with_l s t) c' n', RMMs ms)
+                     | (None, c', n') => (with_c (with_l s t) c' n', RErr)
+                     end
+        | None => (with_l s t, RCrash)
         end
     | LangDescs => let t := force_l s in (with_l s t, RLangs (map snd t))
     | GenDescs => let t := force_g s in (with_g s t, RGens (flat_map (fun lg => map snd (snd lg)) t))
